@@ -523,6 +523,123 @@ func c05Detector(w *World, r *Report) {
 		okErr = okErr && st
 	}
 	r.Check(okErr, "R7", "detectCircularConnections/cycle-becomes-error", dc.Pos(), "a cycle reported by the DFS from any root edge is returned as an error")
+	// ... exactly then: every error exit is on the false edge of one search, every search has
+	// such an exit, the success exit lies behind all of them, and no start is skipped by a break
+	dcalls := CallsIn(dc, false, "flow.dfsDetectCycles")
+	okTable := len(dcalls) >= 1
+	hasErr := map[ssa.Value]bool{}
+	for _, alt := range ReturnAlts(dc, 0) {
+		cs := expandConds(alt.Conds)
+		if isNilConst(alt.Val) {
+			for _, c := range dcalls {
+				if condsHave(cs, false, func(v ssa.Value) bool { return v == c.Value() }) {
+					okTable = false
+				}
+			}
+			continue
+		}
+		matched := false
+		for _, c := range dcalls {
+			if condsHave(cs, false, func(v ssa.Value) bool { return v == c.Value() }) && !condsHave(cs, true, func(v ssa.Value) bool { return v == c.Value() }) {
+				matched = true
+				hasErr[c.Value()] = true
+			}
+		}
+		if !matched {
+			okTable = false
+		}
+	}
+	for _, c := range dcalls {
+		if !hasErr[c.Value()] {
+			okTable = false
+		}
+	}
+	var brk []string
+	for _, h := range loopHeadersOf(dc) {
+		brk = append(brk, loopBreaks(h)...)
+	}
+	r.Check(okTable && len(brk) == 0, "R7", "detectCircularConnections/error-iff-some-search-found-a-cycle", dc.Pos(), "each of the %d searches returns an error on its false (cycle) edge and only there; nil is returned only when none did; no loop over start points is left by break %v", len(dcalls), brk)
+	// the only direction whose search is skipped is a response direction without a root
+	for _, alt := range ReturnAlts(dc, 0) {
+		if !isNilConst(alt.Val) {
+			continue
+		}
+		before := true
+		for _, c := range dcalls {
+			if domInstr(c, alt.Ret) || reachableFrom(c.Block(), nil)[alt.Ret.Block()] {
+				before = false
+			}
+		}
+		if !before {
+			continue
+		}
+		cs := expandConds(alt.Conds)
+		isResp := condsHave(cs, true, func(v ssa.Value) bool { return isCallTo0(v, "StreamType).IsResponseType", "FlowType).IsResponseType") })
+		noRoot := condsHave(cs, false, func(v ssa.Value) bool { return isCallTo0(v, "FlowDirection).HasValidRoot") })
+		r.Check(isResp && noRoot && len(cs) == 2, "R6", "detectCircularConnections/only-rootless-response-is-skipped", posOf(alt.Ret), "the search is skipped only for a response direction (=%v) without a valid root (=%v)", isResp, noRoot)
+	}
+	var dbrk []string
+	for _, h := range loopHeadersOf(dfs) {
+		dbrk = append(dbrk, loopBreaks(h)...)
+	}
+	r.Check(len(dbrk) == 0, "R7", "dfs/edge-loop-not-left-by-break", dfs.Pos(), "an edge without a target node is skipped (continue), it does not end the search of the remaining edges %v", dbrk)
+	// the revisit test: a cycle is reported when the key was already visited under this condition
+	for _, alt := range ReturnAlts(dfs, 0) {
+		b, isC := constBool(alt.Val)
+		if !isC || b {
+			continue
+		}
+		cs := expandConds(alt.Conds)
+		if condsHave(cs, true, func(v ssa.Value) bool { return strings.HasSuffix(Path(v), "[param:current]#1") }) {
+			okOuter := condsHave(cs, true, func(v ssa.Value) bool {
+				p := Path(v)
+				return strings.HasPrefix(p, "param:visitedByCondition[") && strings.HasSuffix(p, "#1") && !strings.HasSuffix(p, "[param:current]#1")
+			})
+			r.Check(okOuter, "R7", "dfs/revisit-under-the-same-condition", posOf(alt.Ret), "the revisit exit is reached on the found edge of visitedByCondition[condition] and of visited[current]")
+		}
+	}
+	// validateDirection / validateFlow verdict rows
+	if vd := w.Fn(pkgFlow, "validateDirection"); vd != nil {
+		nRoot, okRows := 0, true
+		for _, alt := range ReturnAlts(vd, 0) {
+			cs := expandConds(alt.Conds)
+			undef := condsHave(cs, false, func(v ssa.Value) bool { return isCallTo0(v, "FlowDirection).IsDefined") })
+			if isNilConst(alt.Val) {
+				if len(cs) > 0 && !undef {
+					okRows = false
+				}
+				continue
+			}
+			if c, isCall := peel(alt.Val).(*ssa.Call); isCall && isCallTo(c, "fmt.Errorf") {
+				isReq := condsHave(cs, true, func(v ssa.Value) bool { return isCallTo0(v, "StreamType).IsRequestType", "FlowType).IsRequestType") })
+				noRoot := condsHave(cs, false, func(v ssa.Value) bool { return isCallTo0(v, "FlowDirection).HasValidRoot") })
+				if isReq && noRoot && !undef {
+					nRoot++
+				} else {
+					okRows = false
+				}
+			}
+		}
+		r.Check(okRows && nRoot == 1, "R2", "validateDirection/verdict-rows", vd.Pos(), "an undefined direction is accepted, a request direction without a valid root is rejected, everything else is decided by the edge/unconnected/cycle validators")
+	}
+	if vf := w.Fn(pkgFlow, "validateFlow"); vf != nil {
+		okNone := false
+		for _, alt := range ReturnAlts(vf, 0) {
+			if c, isCall := peel(alt.Val).(*ssa.Call); isCall && isCallTo(c, "fmt.Errorf") {
+				if s, _ := constString(c.Call.Args[0]); strings.Contains(s, "no flow direction") {
+					cs := expandConds(alt.Conds)
+					n := 0
+					for _, cd := range cs {
+						if isCallTo0(cd.V, "FlowDirection).IsDefined") && !cd.Pol {
+							n++
+						}
+					}
+					okNone = n == 2
+				}
+			}
+		}
+		r.Check(okNone, "R2", "validateFlow/rejects-a-flow-without-any-direction", vf.Pos(), "a flow graph is rejected when neither direction is defined (and only then by this test)")
+	}
 }
 
 func loopHas(h, b *ssa.BasicBlock) bool {
